@@ -91,10 +91,17 @@ macro_rules! assert_eq_ignore_ws {
 
 impl Rasn {
     pub(crate) fn inner_name(&self, name: &str, parent_name: &str) -> Ident {
+        // The hoisted item is declared under the title-cased form of this name. Title-casing once
+        // more here keeps the references to it identical to that declaration when `name` is
+        // escaped as a keyword (`self` -> `R_Self`, which is declared as `<Parent>RSelf`).
         format_ident!(
-            "{}{}",
-            parent_name,
-            self.to_rust_title_case(name).to_string()
+            "{}",
+            self.to_rust_title_case(&format!(
+                "{}{}",
+                parent_name,
+                self.to_rust_title_case(name)
+            ))
+            .to_string()
         )
     }
 
